@@ -20,7 +20,7 @@ os.makedirs(corpus, exist_ok=True); os.makedirs(art, exist_ok=True)
 subprocess.run([f"{harness}/target/checked/vcheck", prop, "--seed", str(seed), "--export-corpus", target, corpus], env=env, check=True)
 n_seed = len(os.listdir(corpus))
 jobs = 16
-cmd = [binary, corpus, f"-runs={runs}", f"-seed={seed}", "-len_control=0", "-max_len=2048", f"-jobs={jobs}", f"-workers={jobs}", f"-artifact_prefix={art}/", "-timeout=25", "-rss_limit_mb=6144", "-print_final_stats=1"] + extra
+cmd = [binary, corpus, f"-runs={runs}", f"-seed={seed}", "-len_control=0", "-max_len=2048", f"-jobs={jobs}", f"-workers={jobs}", f"-artifact_prefix={art}/", "-timeout=120", "-rss_limit_mb=6144", "-print_final_stats=1"] + extra
 p = subprocess.run(cmd, cwd=work, env=env, capture_output=True, text=True)
 execs = 0
 for f in glob.glob(f"{work}/fuzz-*.log"):
@@ -30,8 +30,12 @@ arts = sorted(glob.glob(f"{art}/*"))
 rc = 0
 # libFuzzer's own watchdogs (per-input timeout, memory limit, slow unit) are a matter of machine load: inconclusive, not a
 # finding about the input; only inputs on which the target itself failed (crash-*, leak-*) are replayed and reported
-watchdog = [a for a in arts if os.path.basename(a).split("-")[0] in ("timeout", "oom", "slow")]
-arts = [a for a in arts if a not in watchdog]
+watchdog = [a for a in arts if os.path.basename(a).split("-")[0] in ("timeout", "oom")]
+# (slow-unit-* files are libFuzzer's report of inputs that took longer than its reporting threshold, not failures)
+slow = [a for a in arts if os.path.basename(a).startswith("slow-unit-")]
+arts = [a for a in arts if a not in watchdog and a not in slow]
+if slow:
+    print(f"{prop} [libfuzzer/{target}]: {len(slow)} input(s) reported as slow units (machine load; not failures)")
 if watchdog:
     print(f"{prop} [libfuzzer/{target}]: {len(watchdog)} input(s) stopped by libFuzzer's timeout / memory watchdog: inconclusive")
     rc = 2
